@@ -249,8 +249,10 @@ def compare(W, o, st_cols, st_rows, pid=None):
                        [float(v) for v in o.range(nm)])
         except Exception as e:  # noqa
             by_name = 'raises %s' % type(e).__name__
-        if by_name != meta + ([float(v) for v in rng],):
-            bad.append(('meta', 'column %d: asked by name %r the metadata are %r, by position %r' % (j, nm, by_name, meta)))
+        # (judged in the C04 run; in the other runs the queries are only MADE, so that a session goes on and the
+        #  property's own steps meet whatever state the queries left behind)
+        if pid in (None, 'C04') and by_name != meta + ([float(v) for v in rng],):
+            bad.append(('name', 'column %d: asked by name %r the metadata are %r, by position %r' % (j, nm, by_name, meta)))
     if bad:
         return bad
     if pid == 'C12' and len(st_rows) >= 1:
@@ -302,6 +304,8 @@ def props_of(op, field):
         return {'C07'} if op in ('rfi', 'rfi_all', 'mef') else base
     if field == 'meta':
         return base | {'C04'} if op in ('pick', 'slicec', 'rows') else base
+    if field == 'name':
+        return {'C04'}
     if field == 'stats':
         return {'C12'}
     if field == 'bins':
@@ -324,6 +328,8 @@ def replay(W, st, init_unit=0, pid=None):
     """-> None or (props, label, detail, step index)"""
     hist = st['hist']
     o, cols, rows = start(W, init_unit)
+    for nm in NAMES:                      # the freshly loaded sample is asked by name too, as user code does
+        o.range(nm)
     # the specification's state after each prefix is recomputed by the same step functions in Python only to
     # know where a mismatch STARTS; the verdict for the full history is against the dumped TLC state
     for k, step in enumerate(hist):
@@ -348,7 +354,8 @@ def replay(W, st, init_unit=0, pid=None):
             return props_of(op, 'accepted'), 'accepted/%s' % op, 'the step is refused in the specification', k
         bad = compare(W, new, cols2, rows2, pid)
         if bad:
-            field, detail = bad[0]
+            mine = [b for b in bad if pid in props_of(op, b[0])]
+            field, detail = (mine or bad)[0]
             return props_of(op, field), '%s/%s' % (op, field), detail, k
         if op == 'dup':
             f1, f2 = heapreplay.fingerprint(o), heapreplay.fingerprint(new)
